@@ -416,6 +416,49 @@ def run(db, tier):
                   "%d function(s): %s" % (len(comp), why[:160]),
                   "call-graph cycle through %s is not in an audited recursion family: its depth is not bounded by the structure of the input "
                   "(stack overflow instead of a diagnostic)" % ", ".join(outside[:4]))
+    # ---------------- R-RENDER: labels without a source location never reach the renderer
+    rep.rule("R-RENDER", "Diagnostic::primary / ::secondary push a label only for spans that have a file (Span::NULL, used for built-in "
+                         "definitions, cannot be drawn and makes codespan's renderer fail -> panic in write_error)")
+    for nm in ("primary", "secondary"):
+        g = db.fn("diagnostic::Diagnostic::" + nm)
+        rep.fn(g)
+        dg = flow.Defs(g)
+        pushes = [bi for bi, t in g.calls() if t.get("f", "").endswith("Vec::<T, A>::push")]
+        okr = bool(pushes)
+        for pb in pushes:
+            guards = flow.bool_call_guards(g, pb, "Option::<T>::is_none", dg) + flow.bool_call_guards(g, pb, "Option::<T>::is_some", dg)
+            if not any(flow.has_field_source(dg._op_sources(t["a"][0], 0, set(), True), "pos::span::Span", "file_id") for _, t in guards):
+                okr = False
+        rep.check(okr, "R-RENDER", "Diagnostic::%s|null-span" % nm, g.loc, "the label is pushed only after testing span.file_id",
+                  "a label with Span::NULL (no file) can be attached: rendering such a diagnostic panics instead of printing it")
+    # ---------------- R-EXPECT-ERR: a reported (or suppressed) error must propagate, never be unwrapped
+    rep.rule("R-EXPECT-ERR", "no unwrap()/expect() on a Result whose error type is ErrorReported / Diagnostic outside the audited sites: "
+                             "such a Result is Err exactly when an input was rejected, so unwrapping it turns a diagnostic into a panic")
+    EXPECT_OK = {
+        "cli_def::load_mapfiles": "applies the BUILT-IN core mapfile (trusted text shipped in the binary), before any user mapfile",
+        "core_mapfiles::add_spans_to_core_mapfile": "re-parses the built-in core mapfile text that truth itself just printed",
+        "context::defs::<impl context::CompilerContext<'_>>::set_ins_abi": "Signature::validate is `Ok(())` unconditionally (checked below)",
+        "vm::AstVm::run": "test interpreter, not reachable from the CLI",
+    }
+    n_exp = 0
+    for f in sorted(db.fns.values(), key=lambda f: f.id):
+        if f.gen:
+            continue
+        for bi, t in f.calls():
+            c = t.get("f", "")
+            if c in ("core::result::Result::<T, E>::unwrap", "core::result::Result::<T, E>::expect") and any(
+                    g_ in ("error::ErrorReported", "diagnostic::Diagnostic") for g_ in (t.get("ga") or [])[1:2]):
+                n_exp += 1
+                rid = root_fn(f.id)
+                rep.check(rid in EXPECT_OK, "R-EXPECT-ERR", "%s|%s" % (rid, c.rsplit("::", 1)[-1]), "%s:%d" % (f.file, t["ln"]),
+                          "audited: " + EXPECT_OK.get(rid, ""),
+                          "%s() on a Result<_, %s>: when the callee rejects the input (possibly with its diagnostic suppressed) this panics "
+                          "instead of failing with a diagnostic" % (c.rsplit("::", 1)[-1], (t.get("ga") or ["", "?"])[1]))
+    rep.floor("unwrap/expect on reported-error results", n_exp, 3)
+    sv = db.fn("context::defs::Signature::validate")
+    trivially_ok = not any(t.get("f") for _, t in sv.calls()) and len(sv.blocks) <= 2
+    rep.check(trivially_ok, "R-EXPECT-ERR", "Signature::validate|cannot fail", sv.loc, "validate() has no failing path (audit witness for set_ins_abi)",
+              "Signature::validate can now fail, but set_ins_abi unwraps its result on user-supplied signatures")
     return rep
 
 
